@@ -504,3 +504,305 @@ def _one_option(ctx, fam, cell, given, obj, opts):
     ctx.nontrivial(key)
     if content != want:
         viol("text-differs-from-class-method", f"{len(content or '')} characters written / returned; obj.{func}_{fmt}(**options) gives {len(want or '')} (the option was not handed to the codec?)")
+
+
+# =================================================================================================
+# KEY cells - cdxml retrieval by key
+# =================================================================================================
+import xml.etree.ElementTree as _et  # noqa: E402
+
+
+def reordered_cdxml(src, dst):
+    """the same drawing with the fragments of every page stored in reverse order: the first label no
+    longer belongs to the first fragment of the file"""
+    tree = _et.parse(src)
+    for page in tree.getroot().findall("page"):
+        kids = list(page)
+        idx = [i for i, ch in enumerate(kids) if ch.tag == "fragment"]
+        frs = [kids[i] for i in idx]
+        for i, fr in zip(idx, reversed(frs)):
+            kids[i] = fr
+        for ch in list(page):
+            page.remove(ch)
+        for ch in kids:
+            page.append(ch)
+    tree.write(dst)
+
+
+def key_class(k, n):
+    if isinstance(k, str):
+        return "empty-string" if k == "" else "label"
+    if k == 0:
+        return "int-0"
+    if k < 0:
+        return "int-negative"
+    return "int-positive" if k < n else "int-out-of-range"
+
+
+def run_key_cells(ctx, fam, given):
+    """ml.load(path, 'cdxml', key=K) for every label, every integer position (0, -1 and one past the end
+    included) and '' - on the family's drawing and on a re-ordered copy of it; expected: otype(CDXMLFile(path)[K])
+    or the same exception class.  (key=None is the matrix itself.)"""
+    root = fam.dir / "keys"
+    root.mkdir(exist_ok=True)
+    files = [("as-drawn", fam.path["cdxml"])]
+    try:
+        reordered_cdxml(fam.path["cdxml"], root / "reordered.cdxml")
+        files.append(("reordered", root / "reordered.cdxml"))
+    except Exception:
+        ctx.add_note("key_cells_reordered_file_not_generated")
+    n = 0
+    for variant, p in files:
+        labels = list(ml.CDXMLFile(p).keys())
+        keys = list(labels) + list(range(len(labels))) + [-1, len(labels), ""]
+        if not labels:
+            keys = [0, -1, "", "no-such-label"]
+        for K in keys:
+            for kind in ("pathstr", "Path"):
+                for otype in ("molecule", "Structure", "ensemble"):
+                    cell = {"op": "key", "func": "load", "fmt": "cdxml", "kind": kind, "otype": otype, "file": variant, "key": K}
+                    _one_key(ctx, fam, cell, p, len(labels))
+                    n += 1
+    ctx.count(states=n)
+
+
+def _one_key(ctx, fam, cell, p, nlabels):
+    K, kind = cell["key"], cell["kind"]
+    arg = str(p) if kind == "pathstr" else Path(p)
+    cls = M.otype_cls(cell["otype"])
+    case = {"family": list(fam.spec), "cell": cell, "given": None}
+    exp = M.outcome_of(lambda: cls(ml.CDXMLFile(arg)[K]))
+    got = M.outcome_of(lambda: ml.load(arg, "cdxml", key=K, otype=M.otype_arg(cell["otype"])))
+    ctx.count(evaluations=1, transitions=2, traces=1)
+    ctx.outcome(("key", got[0], got[1] if got[0] == "exc" else M.digest(M.snap(got[1]))))
+    sig = f"load|cdxml|{M.kindclass(kind)}|{M.oclass(cell['otype'])}|key={key_class(K, nlabels)}"
+    what = f"ml.load({kind} [{cell['file']}], 'cdxml', key={K!r}, otype={cell['otype']})"
+    if exp[0] == "exc":
+        if got[0] == "ok":
+            ctx.violation(f"{sig}:returned-but-CDXMLFile-raised-{exp[1]}", f"{what}: {M.describe(got)}; CDXMLFile(path)[key] {M.describe(exp)}", case)
+        elif got[1] != exp[1]:
+            ctx.violation(f"{sig}:raised-{got[1]}", f"{what}: {M.describe(got)}; CDXMLFile(path)[key] {M.describe(exp)}", case)
+        return
+    if got[0] == "exc":
+        ctx.violation(f"{sig}:raised-{got[1]}", f"{what}: {M.describe(got)}; CDXMLFile(path)[key] {M.describe(exp)}", case)
+        return
+    ctx.nontrivial((fam.name, cell["file"], repr(K), kind, cell["otype"]))
+    if M.snap(got[1]) != M.snap(exp[1]):
+        ctx.violation(f"{sig}:result-differs-from-CDXMLFile-item", f"{what}: {M.describe(got)}; CDXMLFile(path)[key] {M.describe(exp)}", case)
+
+
+def replay_key(ctx, fam, cell):
+    root = fam.dir / "keys"
+    root.mkdir(exist_ok=True)
+    p = fam.path["cdxml"]
+    if cell["file"] == "reordered":
+        reordered_cdxml(fam.path["cdxml"], root / "reordered.cdxml")
+        p = root / "reordered.cdxml"
+    _one_key(ctx, fam, cell, p, len(list(ml.CDXMLFile(p).keys())))
+
+
+# =================================================================================================
+# STREAM-KIND cells - what counts as "a stream" / "a path"
+# =================================================================================================
+import codecs  # noqa: E402
+import tempfile  # noqa: E402
+
+
+class DuckWriter:
+    """the least a text sink has to be for the class-level codecs: write()"""
+
+    def __init__(self):
+        self.chunks = []
+
+    def write(self, s):
+        self.chunks.append(s)
+        return len(s)
+
+
+class Tee:
+    def __init__(self):
+        self.a, self.b = io.StringIO(), io.StringIO()
+
+    def write(self, s):
+        self.a.write(s)
+        return self.b.write(s)
+
+
+class FsPath:
+    """os.PathLike that is neither str nor pathlib.Path"""
+
+    def __init__(self, p):
+        self.p = str(p)
+
+    def __fspath__(self):
+        return self.p
+
+
+class DuckReader:
+    """what the class-level loaders use of a stream: iteration and the context manager protocol"""
+
+    def __init__(self, text):
+        self.it = iter(text.splitlines(keepends=True))
+
+    def __iter__(self):
+        return self
+
+    def __next__(self):
+        return next(self.it)
+
+    def __enter__(self):
+        return self
+
+    def __exit__(self, *a):
+        return False
+
+
+WRITE_KINDS = ("StringIO", "file-w", "file-a", "file-r+", "NamedTemporaryFile-w+", "codecs.open-w", "duck-writer", "tee", "PathLike", "bytes-path")
+READ_KINDS = ("StringIO", "file", "duck-reader", "codecs.open-r", "PathLike", "bytes-path")
+
+
+def make_sink(kind, d, tag):
+    """-> (target, read_back, close); every call makes a fresh, equally prepared target"""
+    p = Path(d) / f"sink-{tag}.txt"
+    p.write_text(M.PREFIX)
+    if kind == "StringIO":
+        s = io.StringIO()
+        return s, s.getvalue, s.close
+    if kind in ("file-w", "file-a", "file-r+"):
+        f = open(p, kind.split("-")[1])
+        return f, lambda: (f.flush(), p.read_text())[1], f.close
+    if kind == "NamedTemporaryFile-w+":
+        f = tempfile.NamedTemporaryFile("w+", dir=d)
+        return f, lambda: (f.flush(), f.seek(0), f.read())[2], f.close
+    if kind == "codecs.open-w":
+        f = codecs.open(str(p), "w", "utf-8")
+        return f, lambda: (f.flush(), p.read_text())[1], f.close
+    if kind == "duck-writer":
+        w = DuckWriter()
+        return w, lambda: "".join(w.chunks), lambda: None
+    if kind == "tee":
+        t = Tee()
+        return t, lambda: t.a.getvalue() + "\x00" + t.b.getvalue(), lambda: None
+    if kind == "PathLike":
+        return FsPath(p), p.read_text, lambda: None
+    if kind == "bytes-path":
+        return os.fsencode(str(p)), p.read_text, lambda: None
+    raise ValueError(kind)
+
+
+def stream_cells(order):
+    def rot(t):
+        r = order % len(t)
+        return t[r:] + t[:r]
+
+    for fmt in rot(("xyz", "mol2")):
+        for obj in rot(M.OBJKINDS):
+            for kind in rot(WRITE_KINDS):
+                yield {"op": "stream-kind", "func": "dump", "fmt": fmt, "kind": kind, "otype": obj}
+        for func in ("load", "load_all"):
+            for otype in ("molecule", "Structure", "ensemble"):
+                if func == "load_all" and otype == "ensemble":
+                    continue
+                for kind in rot(READ_KINDS):
+                    yield {"op": "stream-kind", "func": func, "fmt": fmt, "kind": kind, "otype": otype}
+
+
+def run_stream_cell(ctx, fam, cell, given):
+    func, fmt, kind = cell["func"], cell["fmt"], cell["kind"]
+    case = {"family": list(fam.spec), "cell": cell, "given": given}
+    key = (fam.name, tuple(sorted((k, str(v)) for k, v in cell.items())))
+    d = fam.dir / "streams"
+    d.mkdir(exist_ok=True)
+    sig = f"{func}|{fmt}|{'path' if kind in ('PathLike', 'bytes-path') else 'stream'}[{kind}]|{M.oclass(cell['otype'])}"
+    ctx.count(evaluations=1, transitions=2, traces=1, states=1)
+
+    def viol(symptom, what):
+        ctx.violation(f"{sig}:{symptom}", f"ml.{func}({cell['otype']}, {kind}, {fmt!r}): {what}", case)
+
+    if func == "dump":
+        obj = M.make_object(fam, cell["otype"], "none", given)
+        if obj is None:
+            ctx.add_note("stream_cells_skipped_object_not_loadable")
+            return
+        t1, read1, close1 = make_sink(kind, d, "class")
+        t2, read2, close2 = make_sink(kind, d, "entry")
+        try:
+            exp = M.outcome_of(lambda: getattr(obj, f"dump_{fmt}")(t1))
+            got = M.outcome_of(lambda: ml.dump(obj, t2, fmt))
+            ctx.outcome(("stream-kind", kind, got[0], got[1] if got[0] == "exc" else None))
+            if kind in ("PathLike", "bytes-path"):
+                # not a documented target kind (str | Path | IO): refused like the class method refuses
+                # it, or written to as a path - nothing else
+                if got[0] == "exc":
+                    if exp[0] != "exc" or got[1] != exp[1]:
+                        viol(f"raised-{got[1]}", f"{M.describe(got)}; the class method {M.describe(exp)}")
+                    return
+                buf = io.StringIO()
+                getattr(obj, f"dump_{fmt}")(buf)
+                if read2() != M.PREFIX + buf.getvalue():
+                    viol("accepted-as-a-path-but-text-differs", "the file does not hold prefix + obj.dump text")
+                return
+            if exp[0] == "exc":
+                if got[0] == "ok":
+                    viol(f"returned-but-class-method-raised-{exp[1]}", f"obj.dump_{fmt}(target) {M.describe(exp)}")
+                elif got[1] != exp[1]:
+                    viol(f"raised-{got[1]}", f"{M.describe(got)}; obj.dump_{fmt}(target) {M.describe(exp)}")
+                return
+            if got[0] == "exc":
+                viol(f"raised-{got[1]}", f"{M.describe(got)}; obj.dump_{fmt}(target) wrote {len(read1())} characters into the same kind of target")
+                return
+            ctx.nontrivial(key)
+            try:
+                a, b = read1(), read2()
+            except Exception as e:  # noqa: BLE001
+                viol("target-not-readable-after-dump", f"{type(e).__name__}: {e}")
+                return
+            if a != b:
+                viol("text-differs-from-class-method", f"the target holds {len(b)} characters, after obj.dump_{fmt}(target) {len(a)}")
+        finally:
+            for c in (close1, close2):
+                try:
+                    c()
+                except Exception:
+                    pass
+        return
+
+    # ---- load side: every one of these is outside the documented signature (path: str | Path) -----
+    text = fam.text[fmt]
+    p = fam.path[fmt]
+
+    def source():
+        if kind == "StringIO":
+            return io.StringIO(text)
+        if kind == "file":
+            return open(p, "rt")
+        if kind == "duck-reader":
+            return DuckReader(text)
+        if kind == "codecs.open-r":
+            return codecs.open(str(p), "r", "utf-8")
+        if kind == "PathLike":
+            return FsPath(p)
+        return os.fsencode(str(p))
+
+    cls = M.otype_cls(cell["otype"])
+    meth = getattr(cls, f"{func}_{fmt}")
+    s1, s2 = source(), source()
+    try:
+        exp = M.outcome_of(lambda: meth(s1))
+        got = M.outcome_of(lambda: getattr(ml, func)(s2, fmt, otype=M.otype_arg(cell["otype"])))
+    finally:
+        for s in (s1, s2):
+            try:
+                s.close()
+            except Exception:
+                pass
+    ctx.outcome(("stream-kind", kind, got[0], got[1] if got[0] == "exc" else M.digest(M.snap(got[1]))))
+    if got[0] == "exc":
+        return  # an argument of an undocumented kind may be refused
+    alts = [exp]
+    if kind in ("PathLike", "bytes-path"):
+        alts.append(M.outcome_of(lambda: meth(Path(os.fsdecode(os.fspath(source()))))))
+    if not any(e[0] == "ok" and M.snap(e[1]) == M.snap(got[1]) for e in alts):
+        viol("undocumented-source-kind-returned-something-else", f"{M.describe(got)}; the class method {M.describe(exp)}")
+    else:
+        ctx.nontrivial(key)
